@@ -104,8 +104,6 @@ def handshake (first : Bytes) : Option Conn :=
         let small := s.tableSize ≤ Gen.c_defaultHeaderTableSize
         some { streamWindow := s.windowSize, maxStreams := s.maxStreams, maxFrameSize := s.frameSize
                srvTableSize := s.tableSize
-               encTableSize := if small then s.tableSize else 0
-               encSeen := if small then s.tableSize else 0
                enc := if small then ({} : Hpack.EncState).setMax s.tableSize else {} }
     | _ => none
   | _ => none
